@@ -35,8 +35,11 @@ def run(ck, tier, seed):
             if langrun.compare(a["out"], base):
                 ck.cov["reference_differs_from_definition"] = ck.cov.get("reference_differs_from_definition", 0) + 1
             n += 1
+            slow_ok = c["out"]["kind"] == "unrep" or c["out"].get("class") == "limit"
             for lv in ("vm1", "vm2"):
                 ob = o.get(lv + form)
+                if slow_ok and "hang" in (base.get("kind"), (ob or {}).get("kind")):
+                    continue      # bound only by the step limit: a watchdog expiry on one level is timing, not behaviour
                 if langrun.same_obs(base, ob) and not (ob and ob["kind"] == "value" and base["kind"] == "value" and langrun.norm(ob["v"]) != langrun.norm(base["v"])):
                     continue
                 level = {"vm1": "O1", "vm2": "O3"}[lv] + form
